@@ -16,7 +16,8 @@
 EXTENDS Bridge, Json
 
 CONSTANTS CfgSet, Ids, Hosts, Lens, ReadMax, MaxOpens, MaxBytes, MaxDgrams, Depth, EmitEvery, Faults,
-          WithBind, WithBridge     \* switch the bind / bridge steps on
+          WithBind, WithBridge,    \* switch the bind / bridge steps on
+          MaxNow                   \* virtual time may advance up to this value (0 = time stands still)
 
 VARIABLES st, hist
 vars == <<st, hist>>
@@ -55,7 +56,7 @@ Cnc(e) == \E c \in DOMAIN st.calls[e] : \E t \in CancelCall(st, e, c) : Rec2(t, 
 DMux(e) == \E t \in DropMux(st, e) : Rec2(t, [op |-> "drop_mux", e |-> e])
 DgS(e) ==
   /\ Len(st.dgSent[e]) < MaxDgrams
-  /\ \E host \in Hosts, data \in {"dd", ""}, id \in {0, 1} : \E t \in SendDgram(st, e, id, host, 9, data, FALSE) :
+  /\ \E host \in Hosts, data \in {"dd", "", "e"}, id \in {0, 1, 2} : \E t \in SendDgram(st, e, id, host, 9, data, FALSE) :
        Rec2(t, [op |-> "dg_send", e |-> e, id |-> id, host |-> host, port |-> 9, data |-> data])
 DgG(e) == \E t \in GetDgram(st, e) : Rec2(t, [op |-> "dg_get", e |-> e])
 Task(e) ==
@@ -67,6 +68,10 @@ Flt(e) ==
        \E t \in (CASE k = "cutsrc" -> CutSrc(st, e) [] k = "endsrc" -> EndSrc(st, e)
                    [] k = "cutsink" -> CutSink(st, e) [] k = "softcut" -> SoftCutSink(st, e) [] OTHER -> {}) :
           Rec2(t, [op |-> "fault", e |-> e, kind |-> k])
+
+(* time passes (keepalive) *)
+Adv == \E d \in {1, 1, 2} : st.now + d <= MaxNow /\
+         \E t \in AdvanceTo(st, st.now + d) : Rec2(t, [op |-> "advance", e |-> "A", d |-> d])
 
 (* bind requests *)
 BindS(e) ==
@@ -103,6 +108,7 @@ Next ==
                   \/ DgS(e) \/ DgG(e) \/ Task(e) \/ Task(e) \/ Flt(e)
                   \/ BindS(e) \/ BindP(e) \/ NextB(e) \/ BReply(e) \/ BDrop(e)
                   \/ BrStart(e) \/ BrPoll(e) \/ BrDrop(e)
+                  \/ Adv
 Spec == Init /\ [][Next]_vars
 
 (* one line per behaviour prefix of length EmitEvery, 2*EmitEvery, ... (behaviours may end early: a
@@ -112,7 +118,9 @@ Emit == (Len(hist) > 0 /\ Len(hist) % EmitEvery = 0) =>
 NoViolation == st.viol = {}
 
 MkCfg(rwnd, thr, ac, dg, bc, rt) ==
-  [rwnd |-> rwnd, thr |-> thr, acceptCap |-> ac, dgCap |-> dg, bindCap |-> bc, retries |-> rt]
+  [rwnd |-> rwnd, thr |-> thr, acceptCap |-> ac, dgCap |-> dg, bindCap |-> bc, retries |-> rt, kaI |-> 0, kaT |-> 0]
 SchedCfgs == {MkCfg(r, t, a, 1, 0, rt) : r \in 1..2, t \in 1..3, a \in 1..2, rt \in 1..2}
+SchedCfgsD == {MkCfg(r, 1, 1, dg, 0, 1) : r \in 1..2, dg \in 1..4}
+SchedCfgsK == {[MkCfg(r, 1, 1, 1, 0, 1) EXCEPT !.kaI = i, !.kaT = t] : r \in 1..2, i \in 1..2, t \in {0, 1, 2, 3, 4}}
 SchedCfgsB == {MkCfg(r, t, 1, 1, bc, 2) : r \in 1..2, t \in 1..2, bc \in 0..2}
 =============================================================================
